@@ -12,6 +12,20 @@ def rseq(rng, n, alphabet='ACGT'):
     return ''.join(rng.choice(alphabet) for _ in range(n))
 
 
+def lowc_seq(rng, n, k):
+    """Low-complexity sequence: homopolymer runs and short tandem repeats whose lengths sit around (k-1)/2, (k+1)/2, k and
+    k+1, joined without spacers (junctions of two runs, runs long enough to fill both arms, runs of exactly one window)."""
+    h = (k - 1) // 2
+    out = ''
+    while len(out) < n:
+        unit = rng.choice(['A', 'C', 'G', 'T', 'A', 'C', 'AC', 'AT', 'GC', 'ACG', 'AAT'])
+        L = rng.choice([h, h + 1, h + 1, h + 2, k - 1, k, k + 1, 2 * k, rng.randint(1, 2 * k)])
+        out += (unit * (L // len(unit) + 1))[:L]
+        if rng.random() < 0.2:
+            out += rseq(rng, rng.randint(1, k))
+    return out[:n] if n >= k else out
+
+
 def noisy_seq(rng, n, pn=0.02, lc=0.2):
     s = []
     for _ in range(n):
